@@ -47,8 +47,11 @@ PROPS['C16'] = dict(
     module='SlotVerif.Props.C16',
     suites=[dict(name='shape', variant='default', shrink=False,
                  outputs=['weak_shape', 'slots', 'all_occ', 'public_occ', 'private_occ', 'to_syntax', 'from_syntax(to_syntax)', 'apply_slotmap(shape,bij)', 'weak_shape(renamed)', 'weak_shape(shape)'],
-                 quick=dict(count=60000), thorough=dict(count=2000000))],
-    rule='corr.shape.weak: for each of the 7 harness languages (plain slots; Bind<AppliedId>; Bind<Bind<_>> with a free child '
+                 quick=dict(count=60000), thorough=dict(count=2000000)),
+            # the e-graph's shape (`EGraph::shape`, an anchor of the property: the weak shape minimised over the group-compatible
+            # variants) through the snapshot correspondence: `shape`, `lookup` and `variants` queries on dumped states
+            dict(name='snap', variant='default', shrink=False, quick=dict(count=400, set={'per_op': 1}), thorough=dict(count=10000, set={'per_op': 1}))],
+    rule='corr.snapshot.queries (shape / lookup of probe e-nodes on dumped states, see C08) and corr.shape.weak: for each of the 7 harness languages (plain slots; Bind<AppliedId>; Bind<Bind<_>> with a free child '
          'before it; free child after a Bind; (Slot,AppliedId) pseudo-binder; payload types u32/i64/bool/char/Symbol; the main '
          'e-graph language) a random variant with random slot assignment (numeric and named slots, repeated names, child maps of '
          'size 0-3), in three scoping modes (clean 60%, binder names reused 20%, ill-scoped/shadowing 20%), plus an injective '
